@@ -31,6 +31,8 @@ var c13Defs = []constDefs{
 	{[]string{"const J = 1", "const K = 0x10", "const L = K + J"}, "L", "0x10 + 1", false},
 	{[]string{"const K = FLAG_É", "const Unused = K K"}, "K", "FLAG_É", false},
 	{[]string{"const J = -1", "const K = J"}, "K", "-1", false},
+	{[]string{"const K = ITEM_NONE"}, "K", "ITEM_NONE", false},
+	{[]string{"const J = step_end", "const K = J"}, "K", "step_end", false},
 }
 
 const c13Template = `script S {
@@ -235,5 +237,5 @@ func runC13(tier string) int {
 	r.Assume("values with parentheses are only used at sites where nested parentheses can be written out literally (command arguments, value(...))",
 		"const lines are replaced by blank lines so that line markers stay comparable")
 	return r.Finish(r.Get("evaluations"), r.Get("nontrivial"),
-		"8 definition sets (single token, multi-token, parenthesised, const from const two levels deep, hex, negative, multi-byte identifier) x every single use site, every pair (thorough: triple) and all 19 documented use sites at once (command argument incl. nested, flag/var/defeated operands, comparison values incl. value(), switch operand and case value, AutoVar argument and comparison, goto target, map-script table var/value and inline body, mart item) + 8 non-positions (command name, movement step, label, moves() step, text content, script/text/mapscripts names, raw) + use before definition + redefinition; outputs compared byte for byte with line markers on, optimize on/off; non-trivial = multi-token or chained definition")
+		"10 definition sets (single token, multi-token, parenthesised, const from const two levels deep, hex, negative, multi-byte identifier) x every single use site, every pair (thorough: triple) and all 19 documented use sites at once (command argument incl. nested, flag/var/defeated operands, comparison values incl. value(), switch operand and case value, AutoVar argument and comparison, goto target, map-script table var/value and inline body, mart item) + 8 non-positions (command name, movement step, label, moves() step, text content, script/text/mapscripts names, raw) + use before definition + redefinition; outputs compared byte for byte with line markers on, optimize on/off; non-trivial = multi-token or chained definition")
 }
